@@ -30,6 +30,7 @@ CONSTANTS
   MaxUserCalls = 0
   InstallKinds = {"jump", "bool"}
   Faults = {"mmap", "mprotect"}
+  SiteReuse = FALSE
   MaxLives = 1
   Gates = {"ok", "sig", "bool", "null", "abandon"}
   MaxInstalls = 3
